@@ -32,6 +32,26 @@ def run(prog, E=None, rule="R-ROWCOPY", floor=5):
     funcs = [f for f in prog.funcs.values() if f.live is not None and "_dbl." not in f.unit and "_mpf." not in f.unit
              and f.unit.endswith(("lib_mpq.c", "lpdata_mpq.c", "qsopt_mpq.c")) and not f.name.endswith(("_free", "_init", "QSfree_prob"))]
     info = {}
+
+    def release_blocks(g):
+        """condition blocks of g that test ->rA and whose taken branch releases the row copy"""
+        out = []
+        for bid in g.live:
+            c = g.blocks[bid].get("c")
+            if c is not None:
+                c0 = strip(c)
+                if isinstance(c0, list) and c0 and c0[0] == "m" and c0[2].endswith("ILLlpdata::rA"):
+                    ss = prog.live_succs(g, g.blocks[bid])
+                    if ss and ss[0] is not None and any(e[0] == "C" and (callee(e[1]) or "").endswith("ILLlp_rows_clear") for e in g.blocks[ss[0]]["e"]):
+                        out.append(bid)
+        return out
+    # helpers that do nothing but the test-and-release (`static void discard_row_copy (qslp)`): a call of one is a release event
+    releasers = set()
+    for g in prog.funcs.values():
+        if g.live is None or "_dbl." in g.unit or "_mpf." in g.unit or not g.unit.endswith(("lib_mpq.c", "lpdata_mpq.c", "qsopt_mpq.c")):
+            continue
+        if len(g.blocks) <= 8 and release_blocks(g) and not any(_is_A_write(fp) for (j, fp) in E.W.get(g.key, ())):
+            releasers.add(g.key)
     for f in funcs:
         events = {}
         for (j, fp, loc, how, bid, idx) in E.direct_writes(f):
@@ -58,6 +78,10 @@ def run(prog, E=None, rule="R-ROWCOPY", floor=5):
                     ss = prog.live_succs(f, f.blocks[bid])
                     if ss and ss[0] is not None and any(e[0] == "C" and (callee(e[1]) or "").endswith("ILLlp_rows_clear") for e in f.blocks[ss[0]]["e"]):
                         inval.append((bid, -1))
+        for b_, i_, c_ in f.calls():
+            g_ = prog.resolve(f, c_[1]) if c_[1] else None
+            if g_ is not None and g_.key in releasers:
+                inval.append((b_["id"], i_))
         info[f.key] = (f, events, inval, dom)
     OK = {}
 
